@@ -303,7 +303,7 @@ def resolve_histories(chk, exe, rng, reps):
             for idx, truth, which in ((iA, gA, 'first'), (iB, gB, 'second')):
                 for f, i in enumerate(idx):
                     v = vlib.hs2c(out[i].split()[-2:])[0]
-                    if abs(v - truth[f]) > 1e-4:
+                    if not abs(v - truth[f]) <= 1e-4:
                         chk.violation('resolve-value', '%s: value of the unknown after the %s solve at frequency %d is %r, solved truth %r' % (tag, which, f, v, truth[f]), lines[:i + 1])
                         return
             stale = [i for i in iouts if out[i].startswith('ok')]
